@@ -7,8 +7,15 @@ for f in sorted(glob.glob(os.path.join(HERE, "seeded", "*", "meta.json"))):
     m = json.load(open(f))
     det = [p for p, r in m.get("checks", {}).items() if r["violation"]]
     mis = [p for p, r in m.get("checks", {}).items() if not r["violation"]]
+    bc = m.get("baseline_checks") or {}
+    own = m["breaks_property"]
+    if own in bc:
+        base = f"{'detected' if bc[own]['violation'] else 'MISSED'} (@{bc.get('commit', '?')})"
+    else:
+        fe = m.get("first_evaluation_checks") or {}
+        base = ("detected" if fe[own]["violation"] else "MISSED") + " (first evaluation)" if own in fe else "-"
     rows.append((m["name"], m["breaks_property"], m.get("needs_to_manifest", ""), m.get("demo_confirms"),
-                 len(m.get("stable_tests_now_failing", [])), ", ".join(det) or "-", ", ".join(mis) or "-"))
+                 len(m.get("stable_tests_now_failing", [])), ", ".join(det) or "-", ", ".join(mis) or "-", base))
 out = ["# Seeded changes (written by sub-agents that saw only the property text and a scratch worktree)\n",
        "Each directory holds `patch.diff` (against /repo HEAD incl. the `fix:` commits), the agent's `demo.py` (exit 0 on the original source, "
        "non-zero with the patch), `notes.md`, `pyst_shim.py` (environment adaptation used by the demo) and `meta.json` written by "
@@ -16,8 +23,8 @@ out = ["# Seeded changes (written by sub-agents that saw only the property text 
        "copy (all 414 stable tests must still pass), and the listed quick checks were run against the patched copy "
        "(`PYTHONPATH=<scratch copy>`; /repo itself is never modified). To run a check against a change in /repo itself: "
        "`git -C /repo apply /verif/seeded/<name>/patch.diff; /venv/bin/python check.py <ID>; git -C /repo checkout -- .`\n",
-       "| change | breaks | needs to manifest | demo confirmed | stable tests broken | detected by (quick) | not detected by |",
-       "|---|---|---|---|---|---|---|"]
+       "| change | breaks | needs to manifest | demo confirmed | stable tests broken | detected by (quick, current checks) | not detected by | own check BEFORE it was strengthened for this change |",
+       "|---|---|---|---|---|---|---|---|"]
 for r in rows:
     out.append("| " + " | ".join(str(x) for x in r) + " |")
 out.append("")
